@@ -132,7 +132,14 @@ PROPS = {
                    "receive loop and the SSH pump yield exactly the greedy split of the concatenated stream, for every "
                    "way of cutting it into reads/packets, and never block while a complete delimiter has arrived. "
                    "The model loops are tied to the three real transports by running real child-process, TLS and SSH "
-                   "sessions whose peer controls the segmentation.",
+                   "sessions whose peer controls the segmentation. "
+                   "The SSH pump's bounded queue (capacity 32, back-pressure by awaiting send) has a small-step model "
+                   "(pump / queue / consumer, any capacity >= 1, any interleaving): in every reachable state delivered ++ "
+                   "queued ++ split-off is a prefix of the unbounded pump's output and the queue is within its capacity, and "
+                   "any fair schedule of (pending events + 2 x undelivered messages) rounds delivers every message (those "
+                   "before an eof, if there is one); kernel-evaluated counter-example for the variant that leaves the "
+                   "enqueue loop when the queue is full (capacity 2, three messages in one packet: the third is stranded "
+                   "under every continuation).",
         level_note="Theorem is about the Lean loop model (Model/Framing.lean); fidelity to tls.rs / junos_local.rs / ssh.rs is "
                    "sampled by the correspondence run (exhaustive single cuts around delimiters + random multi-cuts). "
                    "OS/TLS/SSH delivery of writes as reads is trusted; the theorem makes the verdict independent of it.",
@@ -459,7 +466,12 @@ PROPS = {
                    "evaluated) for the code as it is: raw text/JSON payloads (D7), TAB/LF/CR in attributes and CR in text "
                    "(D17), a well-formed fragment carrying the delimiter (D18). The writer model is compared byte for byte "
                    "with the real builders + to_xml on ~950 operation x value cases; an independent strict XML 1.0 parser "
-                   "is the oracle for well-formedness and value recovery on the real bytes.",
+                   "is the oracle for well-formedness and value recovery on the real bytes. "
+                   "The senders' write_all is modelled as a loop over partial writes (Model/SendLoop.lean): for every "
+                   "message and every sequence of non-failing partial-write sizes everything is written (and under any "
+                   "sizes a prefix, with Ok exactly when complete), and composed with C06: any number of serialised "
+                   "requests written with any partial-write sizes and read with any segmentation are received exactly, "
+                   "in order; counter-example for a single write_buf call with a writer accepting less than the message.",
         level_note="Theorems are about the Lean tree/render model (Model/Writers.lean); that the real builders produce "
                    "exactly those bytes is sampled (every operation, every free-text slot x ~35 adversarial values, every "
                    "raw slot x 16 fragments, agent payloads through the plan facade). WFC is the XML subset the writers "
